@@ -24,6 +24,8 @@ func init() {
 			"NOT decided: where failure strings occur in device output (run-time values) — not needed, the scan is a library substring search.",
 		Assumptions: []string{"strings.Contains is the substring predicate"},
 		Mutants: []Mutant{
+			{ID: "C13-failed-as-multi-error", Desc: "Record stores a *MultiOperationError, which the aggregate does not recognise as a failed member", Rule: "C13/failed-types-agree",
+				Edits: []Edit{{File: "response/response.go", Old: "\t\tr.Failed = &OperationError{\n\t\t\tInput:       r.Input,\n\t\t\tOutput:      r.Result,\n\t\t\tErrorString: s,\n\t\t}\n", New: "\t\tr.Failed = &MultiOperationError{Operations: []*OperationError{{\n\t\t\tInput:       r.Input,\n\t\t\tOutput:      r.Result,\n\t\t\tErrorString: s,\n\t\t}}}\n"}}},
 			{ID: "C13-long-lines-split", Desc: "LoadFileLines reads with ReadLine and ignores the continuation flag", Rule: "C13/file-lines",
 				Edits: []Edit{{File: "util/file.go", Old: "\tscanner := bufio.NewScanner(file)\n\tscanner.Split(bufio.ScanLines)\n\n\tvar lines []string\n\n\tfor scanner.Scan() {\n\t\tlines = append(lines, scanner.Text())\n\t}\n", New: "\treader := bufio.NewReader(file)\n\n\tvar lines []string\n\n\tfor {\n\t\tline, _, readErr := reader.ReadLine()\n\t\tif readErr != nil {\n\t\t\tbreak\n\t\t}\n\n\t\tlines = append(lines, string(line))\n\t}\n"}}},
 			{ID: "C13-stop-on-success", Desc: "stop-on-failed stops on the first successful command", Rule: "C13/stop",
@@ -72,6 +74,8 @@ func runC13(c *Ctx, r *Report) {
 	r.Rule("C13/op-options-applied", "generic.NewOperation applies the full per-operation option list (stop-on-failed, failure strings) in order", 1)
 	r.Rule("C13/opts-forwarded", "every generic- and network-driver operation hands its full per-operation option list to each option-taking library callee", 5)
 	r.Rule("C13/stop", "every response appended before the stop test; early success only under StopOnFailed && Failed != nil; no command after it", 2)
+	r.Rule("C13/failed-types-agree", "every concrete type stored to Response.Failed is one MultiResponse.AppendResponse asserts when it decides whether a member failed", 1)
+	checkFailedTypesAgree(c, r, "C13/failed-types-agree")
 	r.Rule("C13/aggregate", "AppendResponse appends on every path and records member failures; SendConfig copies Failed and joins members' results", 4)
 	r.Rule("C13/options", "WithStopOnFailed / WithFailedWhenContains store the setting they name", 4)
 
